@@ -204,6 +204,19 @@ CHECKS = {
         note=BASE_NOTE + 'Storage lookup is not re-proved here (memlayout is shared with code generation: C04). Float / string '
              'evaluation is outside the theorem. Model = the debugger AS REPAIRED (five fix commits).',
         technique='Lean 4 theorem over an evaluator model + correspondence with the real debugger + probe oracle on stepped programs'),
+    'C20': dict(
+        category='proof',
+        text='`current_tree_deterministic`: kernel-decided on every run over the effect summary regenerated from the Python AST of '
+             'the anchored files (writes to module-/class-level state inside functions, order-sensitive uses of sets, reads of the '
+             'process environment): every such effect is on the allow list. `summary_sound`: in an abstract semantics of process '
+             'computations (interaction trees over a shared store, an ambient oracle and a set-order oracle) a computation whose '
+             'non-read actions would all have been reported gives the same output in a fresh process and after any history, under '
+             'any hash seed / clock / set order. Multi-process differential runs (PYTHONHASHSEED, cwd, compilation order, '
+             'histories with failing compilations; sections 1-4, listing, trace, outcome, tick count) search for a failing input.',
+        design_ref='DESIGN.md section 9 C20',
+        note=BASE_NOTE + 'PARTIAL: the extraction is syntactic (no alias analysis / call graph; pyparsing not scanned) and the allow '
+             'list is trusted; OS-level nondeterminism and third-party hash-order effects cannot be exhibited by the model.',
+        technique='Lean 4 theorem over a regenerated effect summary (translator) + abstract non-interference theorem + multi-process differential search'),
 }
 
 PENDING = ('not yet decided by the Lean framework in this commit; design in DESIGN.md section 9, implementation order in '
